@@ -7,7 +7,7 @@ Each theorem is stated for ALL integer arguments where that is true, and under t
 argument types where a cast (`as u8`, …) is only the identity in range. The property theorems
 (Properties/Cxx.lean) are about the Model functions; through these equalities they are about the code.
 -/
-import TzVerif.Generated.Src
+import TzVerif.SrcBase
 import TzVerif.Model.DateTime
 import TzVerif.Model.Rule
 import TzVerif.Proofs.Calendar
